@@ -80,3 +80,111 @@ def load_corpus(prop):
         with open(path) as fh:
             out.append(json.load(fh)["case"])
     return out
+
+
+KF = {"kf_C06_fstring_inner": "C06", "kf_C07_speculative": "C07"}
+
+
+def run(prop, tier, cone, props_file, gen_cases, rule, replay=None, layout_cases=None, extra=None):
+    """prop in C06/C07/C20.  gen_cases(rng, tier) -> list of cases compared in full; layout_cases(rng, tier) ->
+    cases for which only the exception class and the condition text are compared (C07)."""
+    out = C.Outcome(prop, tier)
+    build = C.regenerate_and_build()
+    problems = C.proof_section(out, build, cone, props_file)
+    if not build.ok_for(MODEL_FILES):
+        out.violation("the executable model does not build: " + "; ".join(problems),
+                      {"problems": problems, "log": build.log[-3000:]}, found_input=False)
+        return out.finish()
+    rng = random.Random(C.seed() * 104729 + sum(map(ord, prop)))
+    spec_col = {"C06": 2, "C07": 3, "C20": 4}[prop]
+    if replay:
+        with open(replay) as fh:
+            rp = json.load(fh)
+        full, partial = ([rp["case"]], []) if not rp.get("layout_only") else ([], [rp["case"]])
+        ncorpus = 0
+    else:
+        corpus = load_corpus(prop)
+        ncorpus = len(corpus)
+        full = corpus + gen_cases(rng, tier)
+        partial = layout_cases(rng, tier) if layout_cases else []
+    cases = full + partial
+    obs = observe(cases)
+    herr = [(c, o) for c, o in zip(cases, obs) if "harness_error" in o]
+    for c, o in herr[:1]:
+        out.violation("the implementation could not be driven on a generated case: %s" % o["harness_error"],
+                      {"case": c, "observation": o, "source": X.src(c["tree"])}, found_input=False)
+    live = [(c, o, i >= len(full)) for i, (c, o) in enumerate(zip(cases, obs)) if "harness_error" not in o]
+    codes = evaluate([c for c, _, _ in live], [o for _, o, _ in live])
+    kf = C.load_known_findings()
+    listed = {f["id"] for f in kf.get("findings", []) if prop in ([f["property"]] + f.get("also", []))}
+    shapes = collections.Counter()
+    distinct = set()
+    spec_fail, py_dis, lib_dis, known_hits = [], [], [], collections.Counter()
+    for (c, o, layout_only), code in zip(live, codes):
+        shapes[shape_of(c, o) + ("/layout%d.%d" % (c.get("layout", 0), c.get("nesting", 0)) if layout_only else "")] += 1
+        if o["outcome"] in (0, 1):
+            distinct.add(json.dumps([c["tree"], o.get("lines"), o["outcome"]], sort_keys=True))
+        if code[0]:
+            py_dis.append((c, o))
+        if code[1] and not layout_only:
+            lib_dis.append((c, o))
+        if layout_only and prop != "C07":
+            continue
+        if code[spec_col]:
+            cls = None
+            if prop == "C06" and not code[6]:
+                cls = "kf_C06_fstring_inner"
+            if prop == "C07" and code[5]:
+                cls = "kf_C07_speculative"
+            if cls and cls in listed:
+                known_hits[cls] += 1
+            else:
+                spec_fail.append((c, o, layout_only, cls))
+    for cls, n in known_hits.items():
+        f = [f for f in kf["findings"] if f["id"] == cls][0]
+        out.known_finding("%s (%d cases in the class on this run)" % (f["what"], n))
+
+    def payload(c, o, layout_only=False):
+        return {"case": c, "layout_only": layout_only, "source": "lambda %s: %s" % (", ".join(c["cond_params"]), X.src(c["tree"])),
+                "call": {"args": c["args"], "closure": c["closure"], "globals": c["globals"][:-4], "kw_order": c.get("kw_order")},
+                "observation": {k: o.get(k) for k in ("outcome", "message", "lines", "pytruth", "pyexc", "text_ok", "cause")},
+                "python_log": o.get("pylog"), "recomputed_values": o.get("recorded"),
+                "model": model_view(c, o) if "texts" in o else None, "how": "./check %s --replay <this file>" % prop}
+    for c, o, layout_only, cls in spec_fail[:3]:
+        out.violation("spec_%s is false of the implementation: %s" % (prop, (o.get("message") or "")[:160].replace("\n", " | ")),
+                      payload(c, o, layout_only))
+    if py_dis:
+        problems.append("the reference semantics (Model/Expr.ev) disagrees with CPython on %d case(s)" % len(py_dis))
+    if lib_dis and not spec_fail:
+        problems.append("model and library disagree on %d case(s)" % len(lib_dis))
+    if extra:
+        extra(out, rng, tier, [c for c, _, lo in live if not lo], problems)
+    if problems and not out.violations:
+        pl = {"no_longer_checks": problems}
+        if py_dis or lib_dis:
+            pl.update(payload(*(py_dis or lib_dis)[0]))
+        out.violation("; ".join(problems), pl, found_input=False)
+    cov = out.coverage
+    cov.update({
+        "evaluations": cov.get("evaluations", 0) + len(cases),
+        "distinct_nontrivial": len(distinct),
+        "rule": rule,
+        "traces_validated_against_impl": len(live),
+        "vm_compute_cases": len(live),
+        "corpus_cases": ncorpus,
+        "disagreements_with_cpython": len(py_dis),
+        "disagreements_with_library": len(lib_dis),
+        "spec_failures_on_implementation": len(spec_fail) + sum(known_hits.values()),
+        "known_finding_cases": dict(known_hits),
+        "distribution": dict(shapes.most_common(60)),
+        "samples": [{"source": X.src(c["tree"])[:200], "outcome": o["outcome"], "lines": o.get("lines", [])[:6]}
+                    for c, o, _ in live[:2] + live[-1:]],
+        "specs": ["agree_python", "agree_library", "spec_" + prop],
+    })
+    out.assumptions += [
+        "the data model (operators, truth, calls, iteration, formatting) is an oracle: a mini-domain in Model/PyPrims.v, "
+        "compared with CPython node by node on every run",
+        "source text of a node is what asttokens returns (passed into the model as a table)",
+        "not in the model: set displays and comprehensions, /, **, @, format specs, lambda, await, bytes, floats",
+    ]
+    return out.finish()
